@@ -50,7 +50,7 @@ KINDS = (
 
 
 def cases(tier, rng):
-    n = 10 if tier == "quick" else 72
+    n = 10 if tier == "quick" else 160
     per = 3 if tier == "quick" else 8
     out = []
     for i in range(n):
